@@ -26,7 +26,7 @@ ASSUMPTIONS = [
     "constant/keyword, or a name of the generated module's own vocabulary)",
 ]
 REQUIRED_COUNTERS = [
-    "names.mapped", "e2e.instances", "e2e.properties_parsed_twice", "siblings.sets", "siblings.distinct_ok", "titles.modules_executed",
+    "names.mapped", "e2e.instances", "e2e.properties_parsed_twice", "e2e.generated_module", "siblings.sets", "siblings.distinct_ok", "titles.modules_executed",
     "titles.mapped", "titles.distinct_ok", "titles.sets_without_f22_trigger", "cat.Lu", "cat.Ll", "cat.Nd", "cat.No", "cat.Zs", "cat.Po", "cat.Sm", "cat.Mn",
     "cat.Cc", "cat.Cs", "cat.Co", "cat.Cn", "cat.Lo", "cat.Lm", "pool.keywords", "pool.dunder",
 ]
@@ -113,9 +113,14 @@ def fold_model(name):
     if not (attr[0].isascii() and (attr[0].isalpha() or attr[0] == "_")):
         used.add("prefix_")
         attr = "_" + attr
+    # identifiers are NFKC-normalised, as the Python language does with source text
+    normal = unicodedata.normalize("NFKC", attr)
+    if normal != attr:
+        used.add("nfkc")
+        attr = normal
     import builtins  # pylint: disable=import-outside-toplevel
 
-    reserved = set(dir(builtins.object)) | set(keyword.kwlist) | {"_dict"}
+    reserved = set(dir(builtins.object)) | set(keyword.kwlist) | {"_dict", "__dict__", "__weakref__"}
     if attr in reserved:
         used.add("reserved_suffix")
         attr += "_"
@@ -234,8 +239,29 @@ def e2e_name(ctx, sut, name, pool, variant=0):
         bad_outcome = sut.call(cls, {name: 5})[0]
         if bad_outcome == "ok":
             problems.append("schema of the property is not applied to the member with that JSON name")
+    finding = None
+    if not problems:
+        # the identifier must also survive the generated module: a class body is compiled Python (NFKC
+        # normalisation of identifiers, private-name mangling), and the property must come back the same
+        try:
+            source = sut.serialize_python(cls)
+            namespace = {}
+            exec(compile(source, "<generated>", "exec"), namespace)  # pylint: disable=exec-used
+            regenerated = namespace[cls.__name__]
+            ctx.count("e2e.generated_module")
+            regen_props = {key: prop.source for key, prop in regenerated.properties.items()}
+            if regen_props != {attr: name}:
+                problems.append(f"generated class declares {regen_props} instead of {{{attr!r}: {name!r}}}")
+                if attr.startswith("__") and not attr.endswith("__"):
+                    finding = "F31"
+        except Exception as exc:  # pylint: disable=broad-except
+            from vlib.checks.c12 import f22_trigger as _trig  # pylint: disable=import-outside-toplevel,import-self
+
+            problems.append(f"generated module unusable: {type(exc).__name__}: {exc!r}"[:200])
+            _ = _trig
     if problems:
-        ctx.witness("unusable_property", {"name": name, "attr": attr, "pool": pool}, "; ".join(problems))
+        ctx.witness("unusable_property", {"name": name, "attr": attr, "pool": pool}, "; ".join(problems),
+                    finding=finding)
 
 
 def _share(schema):
@@ -263,6 +289,7 @@ def pools(ctx, sut):
         "items", "construct", "", " ", "  ", "-", "_", "__", "a b", "1", "123", "1a", "a1", "é", "ß",
         "ſ", "aſ", "ｉｆ", "ª", "²", "①", "a²", "x́", "́", "a‍b", "\ud800", "a\x00b", "\n",
         "None", "True", "False", "none", "true", "null", "print", "object", "type", "match", "case",
+        "__x", "__private", "___", "__a_", "_Holder__x", "ﬁle", "ﬁ", "Ｋ", "ª", "µ", "ǆ", "ℌ", "ｘ１", "Ⅷ", "x̃",
     ]
     for idx, name in enumerate(kws):
         if idx % ctx.nshards == ctx.shard:
